@@ -1,7 +1,8 @@
 (* Correspondence for C07.
-   CCfg:   the reference structure of a configuration the real controller wrote, with the
-           verdict of the Go reference analysis (harness/lib/c07/check.go): the verified
-           checker must give the same verdict (true on every configuration of a tree
+   CCfg:   one history through the real controller: after every reconciliation the
+           reference structure of the configuration it wrote, with the verdict of the Go
+           reference analysis (harness/lib/c07/check.go): the verified checker must give
+           the same verdict on each of them (true on every configuration of a tree
            without known findings).
    CNames: AddEndpoint / AddEmptyEndpoint run on a real hatypes.Backend: the server names.
    CPaths: AddBackendPath run on a real hatypes.Backend: (link, id) in id order.
@@ -29,13 +30,13 @@ Definition mk_cfg ss ul mp cl fl ab ai asv : cfg :=
      c_authbinds := ab; c_authids := ai; c_authservers := asv |}.
 
 Inductive c07case :=
-| CCfg (id : N) (c : cfg) (ok : bool)
+| CCfg (id : N) (states : list (cfg * bool))
 | CNames (id : N) (m : naming) (ops : list ep_op) (obs : list string)
 | CPaths (id : N) (ops : list string) (obs : list (string * string))
 | CAuth (id : N) (ops : list auth_op) (obs : list (option Z * list (string * Z))).
 
 Definition case_id (c : c07case) : N :=
-  match c with CCfg i _ _ | CNames i _ _ _ | CPaths i _ _ | CAuth i _ _ => i end.
+  match c with CCfg i _ | CNames i _ _ _ | CPaths i _ _ | CAuth i _ _ => i end.
 
 Fixpoint slist_eqb (a b : list string) : bool :=
   match a, b with
@@ -70,7 +71,7 @@ Fixpoint trace_eqb (a b : list (option Z * list (string * Z))) : bool :=
 
 Definition case_ok (c : c07case) : bool :=
   match c with
-  | CCfg _ c ok => Bool.eqb (wellformed c) ok
+  | CCfg _ states => forallb (fun st : cfg * bool => Bool.eqb (wellformed (fst st)) (snd st)) states
   | CNames _ m ops obs => slist_eqb (run_names m ops) obs
   | CPaths _ ops obs => plist_eqb (run_paths String.eqb (fun l => l) ops) obs
   | CAuth _ ops obs => trace_eqb (trace_auth [] ops) obs
